@@ -778,8 +778,11 @@ def run(ctx):
                    f"the loop stores at every node its own component's value (since round 5c the "
                    f"theorem per_component_loop_eq_per_node for every undirected network; the "
                    f"driver's flag is kept as a cross-check); round 5d: the exact Gauss-Jordan inverse "
-                   f"of every component satisfies SolvesL/SolvesR (flag csolves), the only "
-                   f"hypotheses of nsi_newman_wrapped_split_checked -- nsi_arenas_wrapped_split "
+                   f"of every component satisfies SolvesL/SolvesR (flag csolves) -- since round 5e a "
+                   f"theorem (circuit_inverse_two_sided, newman_tof_solves: Gauss-Jordan returns a "
+                   f"two-sided inverse whenever it returns), so nsi_newman_wrapped_split_unconditional "
+                   f"needs no such hypothesis and the flag is kept as a cross-check of model == "
+                   f"theorem; nsi_arenas_wrapped_split "
                    f"needs none; newmanAll/arenasAll == nsiNewman/arenasB is a theorem "
                    f"({ncomp} requests)",
                    "correspondence", not bad_comp, "\n".join(bad_comp[:6]))
@@ -803,7 +806,9 @@ def check_comp(ctx, ans, impl_pack, n, where):
     if mb.get("pernode") != "1":
         bad.append(f"{where}: the component loop does not store every node's own component value")
     # round 5d: hypothesis of nsi_newman_wrapped_split_checked (only where the model returns an
-    # array at all: on a singular component neither the theorem nor the flag says anything)
+    # array at all: on a singular component neither the theorem nor the flag says anything);
+    # round 5e: true by theorem (newman_tof_solves / nsi_newman_wrapped_split_unconditional) --
+    # kept as a cross-check that the driver evaluates what the theorem is about
     if mb.get("newman", "singular") != "singular" and mb.get("csolves") != "1":
         bad.append(f"{where}: the Gauss-Jordan grounded inverse of some component does not satisfy "
                    f"SolvesL/SolvesR exactly (hypothesis of nsi_newman_wrapped_split_checked)")
